@@ -235,6 +235,28 @@ def run_case(c):
             probs = K.primitive_tiling_problems(pr, sc, pmat)
             for kind, msg in probs[:2]:
                 bad("tiling_primitive_" + kind, msg, pmat=np.array(pmat).tolist(), via="driver")
+            if len(pr) > 1:
+                # the same primitive cell with its atoms requested in another order (public positions_to_reorder argument): cell AND maps must follow
+                perm = rng.permutation(len(pr))
+                if np.array_equal(perm, np.arange(len(pr))):
+                    perm = perm[::-1]
+                want_pos = np.array(pr.scaled_positions)[perm]
+                try:
+                    pr2 = Primitive(sc, pmat, store_dense_svecs=dense, positions_to_reorder=want_pos)
+                except Exception as e:
+                    bad("primitive_refused", "Primitive(positions_to_reorder=its own positions, permuted) raised %r" % (e,), pmat=np.array(pmat).tolist(), reordered=True)
+                    pr2 = None
+                if pr2 is not None:
+                    obs["primitive_reordered"] = obs.get("primitive_reordered", 0) + 1
+                    dpos = np.array(pr2.scaled_positions) - want_pos
+                    dpos -= np.rint(dpos)
+                    if list(pr2.symbols) != [pr.symbols[i] for i in perm] or np.abs(dpos).max() > 1e-8:
+                        bad("tiling_primitive_reorder", "primitive cell does not list its atoms in the requested order %s" % perm.tolist(), pmat=np.array(pmat).tolist(), reordered=True)
+                    if list(np.array(pr2.p2s_map)) != [int(np.array(pr.p2s_map)[i]) for i in perm]:
+                        bad("tiling_primitive_reorder", "atoms requested in the order %s: p2s_map is %s, the same atoms of the supercell are %s" % (
+                            perm.tolist(), np.array(pr2.p2s_map).tolist(), [int(np.array(pr.p2s_map)[i]) for i in perm]), pmat=np.array(pmat).tolist(), reordered=True)
+                    for kind, msg in K.primitive_tiling_problems(pr2, sc, pmat)[:2]:
+                        bad("tiling_primitive_" + kind, "(atoms requested in the order %s) %s" % (perm.tolist(), msg), pmat=np.array(pmat).tolist(), via="driver", reordered=True)
             N = len(sc) // max(1, len(pr))
             obs.setdefault("primitive_N", [])
             if N not in obs["primitive_N"]:
